@@ -41,7 +41,8 @@ META = dict(
                'get_next_rundir_number', 'link_runN / unlink_runN',
                'reinstall_workflow', 'clean (local)', 'detect_flow_exists',
                'check_nested_dirs'],
-    bounds=['sequences of 1..4 operations out of 8 kinds (quick: 3)'],
+    bounds=['sequences of 1..4 operations out of 8 kinds (quick: 3)',
+            'pre-states: 64 subsets of {1, 2, 9, 10, 11, 100} x 2 runN states'],
     stubs=['cylc-run directory redirected to a scratch directory '
            '(pathutil._CYLC_RUN_DIR)'],
     assumptions=[],
@@ -204,16 +205,82 @@ def sequence(o1: int, o2: int, o3: int, o4: int, n: int) -> bool:
         return _run(ops[:n])
 
 
+NUMS = [1, 2, 9, 10, 11, 100]
+
+
+def _prestate(mask, link):
+    """One numbered install on top of an arbitrary set of existing runs
+    (built directly: run dirs, _cylc-install/source, runN or not)."""
+    d = tempfile.mkdtemp(prefix='cylc-verif-c48p-')
+    old = pathutil._CYLC_RUN_DIR
+    cwd = os.getcwd()
+    try:
+        run_root = os.path.join(d, 'cylc-run')
+        os.mkdir(run_root)
+        pathutil._CYLC_RUN_DIR = run_root
+        src = Path(d, 'src', 'wf')
+        src.mkdir(parents=True)
+        (src / 'flow.cylc').write_text(
+            '[scheduling]\n    [[graph]]\n        R1 = a\n'
+            '[runtime]\n    [[a]]\n')
+        base = Path(run_root, 'wf')
+        have = [n for i, n in enumerate(NUMS) if mask >> i & 1]
+        if have:
+            (base / '_cylc-install').mkdir(parents=True)
+            (base / '_cylc-install' / 'source').symlink_to(src)
+        for n in have:
+            (base / f'run{n}').mkdir()
+            (base / f'run{n}' / 'flow.cylc').write_text('x')
+            (base / f'run{n}' / 'MARKER').write_text(str(n))
+        # runN: absent (the latest run was cleaned) or on the latest run -
+        # the only two states install / clean sequences can reach
+        if have and link == 1:
+            (base / 'runN').symlink_to(f'run{max(have)}')
+        before = snapshot(base)
+        try:
+            _s, rundir, _n, _r = install_workflow(src, 'wf')
+        except WorkflowFilesError:
+            return False
+        after = snapshot(base)
+        new = set(after) - set(before) - {'runN'}
+        if new != {rundir.name}:
+            return False
+        k = int(rundir.name[3:])
+        if have and k <= max(have):
+            return False
+        if not have and k != 1:
+            return False
+        for name, v in before.items():
+            if name != 'runN' and after.get(name) != v:
+                return False
+        return after.get('runN') == ('link', rundir.name)
+    finally:
+        os.chdir(cwd)
+        pathutil._CYLC_RUN_DIR = old
+        shutil.rmtree(d, ignore_errors=True)
+
+
+def prestate(mask: int, link: int) -> bool:
+    """
+    pre: 0 <= mask < 64 and 0 <= link <= 1
+    post: _
+    """
+    mask, link = fork_int(mask, 0, 63), fork_int(link, 0, 1)
+    with concrete():
+        return _prestate(mask, link)
+
+
 def OBLIGATIONS(tier):
     big = tier == 'thorough'
     t = 2400 if big else 170
     return [Ob(f'sequence[first={OPS[o]}]', 'sequence', timeout=t,
                twin=(o == 0), slice={'o1': o, 'n': 4 if big else 3})
-            for o in range(3)]
+            for o in range(3)] + [Ob('prestate', 'prestate', timeout=t)]
 
 
 def VALIDATE():
     n = 0
     assert _run([0, 0, 0])
     assert _run([0, 0, 5, 0]) and _run([1, 0, 7])
-    return n + 3
+    assert _prestate(0, 0) and _prestate(0b001100, 0) and _prestate(3, 1)
+    return n + 6
